@@ -9,7 +9,8 @@ REQUIRED = ["CifModel.C09_idempotent", "CifModel.C09_canon_invariant", "CifModel
             "CifModel.Lemmas.NamesLink.consts_link", "CifModel.Lemmas.NamesLink.bmpDisallowed_link",
             "CifModel.C09_normalize_buffer_refines", "CifModel.C09_unicode_normalize_buffer", "CifModel.C09_fold_case_buffer",
             "CifModel.C09_normalize_buffer_cstring", "CifModel.C09_normalize_entry_buffer_refines",
-            "CifModel.C09_entry_points", "CifModel.C09_store_block_match", "CifModel.C09_table_survives_store"]
+            "CifModel.C09_entry_points", "CifModel.C09_store_block_match", "CifModel.C09_table_survives_store",
+            "CifModel.C09_store_frame_match", "CifModel.C09_store_item_match"]
 GEN = ["ErrCodes", "NamesConsts"]
 FAMILIES = ["valid", "norm"]
 TRUSTED_BASE = [
@@ -57,9 +58,11 @@ PARTIAL = [
     "entry points make exactly that call (cif_normalize_name(code, -1, &buf, CIF_INVALID_BLOCKCODE) before anything else, etc.) is part of "
     "those entry-point models' own tie (families `valid api`, `store`, `val`), not proved; for set_value / add_item only the verdict and "
     "the identity with the call on the normalised record are stated here - the rows they store are C04's refinement",
-    "found / duplicate: C09_match_iff on the list of present normal forms; C09_store_block_match composes it with the store model for "
-    "BLOCKS (one create followed by get / create, from any store state whose block keys are normal forms); frames and items have the "
-    "stored-row lemma (C09_entry_points) but the found / duplicate composition over histories is property C04's",
+    "found / duplicate: C09_match_iff on the list of present normal forms; C09_store_block_match / C09_store_frame_match / "
+    "C09_store_item_match compose it with the store model for ONE creation followed by look-up / re-creation, from any store state whose "
+    "keys are the normal forms of their spellings (invariant shown preserved by the three creating calls; the id-sequence facts the DUP "
+    "direction needs are hypotheses that C04's invariant provides); items are stated on the loop_item row test (hasItem) that "
+    "get_value / get_item_loop / the DUP check consult; set_value / add_item / remove and whole histories are property C04's",
     "ICU itself: `Laws` and `Contract` are hypotheses (tested against ICU on all code points resp. all capacities 0 .. length+2 of "
     "seeded strings), not proved; allocation failure inside the retry loops (`while (buf)`, the unchecked malloc after an overflow) is "
     "property C17's fault-injection census, not modelled here",
